@@ -46,6 +46,14 @@ def gen_piece(rng, cfg, tk, grid=2, max_bars=4, whole_bar_notes=True):
             busy.setdefault(p, []).append((on, on + d))
             notes.append([t, p, on, d, rng.randrange(1, 128)])
         tracks.append(notes)
+    # the piece ends with the bar that holds its last note: no signature event beyond the music
+    end_music = max([n[2] + n[3] for tr in tracks for n in tr] + [1])
+    keep, acc = 0, 0
+    for L in lens:
+        keep += 1; acc += L
+        if acc >= end_music:
+            break
+    lens, sigs = lens[:keep], sigs[:keep]
     return {"bars": lens, "sigs": sigs, "tracks": tracks, "build": rng.choice(("rel", "abs")), "read_rel": rng.random() < 0.5}
 
 
